@@ -123,7 +123,10 @@ def r_printer(ctx, rule="R6"):
     n = bad = 0
     reported = set()
     mappings = [None] + (printer.MAPPINGS_THOROUGH if ctx.tier == "thorough" else [])
-    for cfg, mp in [(c_, m_) for m_ in mappings for c_ in printer.configs(ctx.tier)]:
+    runs = [(c_, m_) for m_ in mappings for c_ in printer.configs(ctx.tier)]
+    # keep_order: keys the dialect does not list stay in mapping order (here: not the alphabetical one) after the listed keys
+    runs += [(c_, printer.MAPPINGS_THOROUGH[0]) for c_ in printer.configs(ctx.tier) if c_.get("_keep_order")] if ctx.tier != "thorough" else []
+    for cfg, mp in runs:
         label = "fmt=%s repeated=%s quoted=%s trailing=%s fieldsep=%r kvsep=%r ignore_escapes=%s keep_order=%s mapping=%s" % (
             cfg["fmt"], cfg["repeated keys"], cfg["quoted GFF2 values"], cfg["trailing semicolon"], cfg["field separator"], cfg["keyval separator"], cfg["_ignore"],
             cfg.get("_keep_order"), mp or "default")
